@@ -1064,6 +1064,80 @@ func selfValidatingFields(res *vkit.Result) {
 	}
 }
 
+// realComponentProducts: the same promise through the built-in components. Three pools of one gun
+// type are decoded in one process, each with its own keys in a map-valued option (one leaves the
+// option out), and each pool's factory is called three times in turn. Every gun must hold exactly
+// the keys its own pool wrote: a default configuration that is not made afresh for every product
+// lets the keys of one pool show up in the guns of another.
+func realComponentProducts(res *vkit.Result) {
+	type mapOpt struct {
+		gun, key, field string
+		extra           map[string]any
+	}
+	opts := []mapOpt{
+		{"grpc", "reflect_metadata", "ReflectMetadata", nil},
+		{"grpc/scenario", "reflect_metadata", "ReflectMetadata", nil},
+	}
+	for _, o := range opts {
+		c := map[string]any{"gun": o.gun, "option": o.key}
+		key := "C18/built-in/" + o.gun + "/" + o.key
+		written := []map[string]any{{"tenant": "alpha"}, {"token": "beta", "zone": "z"}, nil, {"tenant": "gamma"}}
+		var pools []any
+		for i, w := range written {
+			g := map[string]any{"type": o.gun, "target": "127.0.0.1:1"}
+			if w != nil {
+				g[o.key] = w
+			}
+			pools = append(pools, map[string]any{"id": fmt.Sprintf("p%d", i), "gun": g,
+				"ammo":   map[string]any{"type": "dummy"},
+				"result": map[string]any{"type": "discard"},
+				"rps":    map[string]any{"type": "once", "times": 1}, "startup": map[string]any{"type": "once", "times": 1}})
+		}
+		ec, err := vkit.DecodePools(map[string]any{"pools": pools})
+		if err != nil {
+			res.Inconclusive(true, "built-in pools of %s guns rejected: %v", o.gun, err)
+			continue
+		}
+		bad := ""
+		for round := 0; round < 3 && bad == ""; round++ {
+			for i, p := range ec.Pools {
+				var g core.Gun
+				var gerr error
+				if pv, panicked := callSafely(func() { g, gerr = p.NewGun() }); panicked {
+					bad = fmt.Sprintf("pool %d call %d: NewGun panicked: %v", i, round, pv)
+					break
+				}
+				if gerr != nil {
+					bad = fmt.Sprintf("pool %d call %d: NewGun failed: %v", i, round, gerr)
+					break
+				}
+				f, ok := vkit.FindField(g, o.field)
+				if !ok || f.Kind() != reflect.Map {
+					res.Inconclusive(true, "%s gun has no map field %s", o.gun, o.field)
+					break
+				}
+				got := map[string]string{}
+				for _, k := range f.MapKeys() {
+					got[k.String()] = f.MapIndex(k).String()
+				}
+				want := map[string]string{}
+				for k, v := range written[i] {
+					want[k] = v.(string)
+				}
+				if !reflect.DeepEqual(got, want) {
+					bad = fmt.Sprintf("pool %d wrote %s: %v; the gun made by call %d of its factory holds %v", i, o.key, want, round, got)
+					break
+				}
+				res.Count("built_in_products_compared", 1)
+			}
+		}
+		if bad != "" {
+			res.Violate(key+"/foreign-settings", bad, c)
+		}
+		res.Eval(vkit.JSON(c), true)
+	}
+}
+
 func main() {
 	vkit.Fs() // registers the config hooks (pluginconfig.AddHooks via core import)
 	res := vkit.NewResult("exhaustive cross product of constructor shapes (component|factory × no config|struct|*struct × error result × inner error result / impl-typed result × default-config func) × requested form (New, factory with error, factory without error) × outcome (ok, constructor error, inner factory error, config error) × 1–5 factory calls with mutation of each product's config; plus every config-taking shape through the `type:` config hooks; plus plugins nested three deep in plugins of the same registered name and two overlapping creations (one held in the middle of decoding by a blocking field) for value/pointer/factory shapes; plus one decoded factory called from 16 goroutines at once (every product must come from its own freshly created default); distinct = distinct (shape, form, outcome, calls); all are non-trivial")
@@ -1094,6 +1168,7 @@ func main() {
 	typeOnlySections(res)
 	registerHelpers(res)
 	selfValidatingFields(res)
+	realComponentProducts(res)
 	res.Set("exhaustive", true)
 	res.Set("shapes", len(shapes()))
 	res.Sample(Case{Shape: shapes()[5], Form: "factory-noerr", Outcome: "config-error", Calls: 2})
